@@ -142,8 +142,8 @@ def DenotesDouble (min max ar rr : F) (o : PVal F) (r : F) : Prop :=
         le (clampInf x) (add max (tolerance rr ar (clampInf x))) = true))
 
 /-- a number offered to a scaled type: the grid value nearest to it when that lies in the declared
-interval, or — when the number lies outside the limits by less than one `scale` — the grid value of
-the limit -/
+interval (between the grid values `lo`, `hi` of the limits: the interval the datainfo describes), or — when
+the number lies outside that interval by less than one `scale` — the end of the interval -/
 def DenotesScaled (scale min max : F) (o : PVal F) (r : F) : Prop :=
   match toFloat? o with
   | none => False
@@ -154,7 +154,7 @@ def DenotesScaled (scale min max : F) (o : PVal F) (r : F) : Prop :=
       match ofGrid scale k, snap scale min, snap scale max with
       | some g, some lo, some hi =>
         (same r g = true ∧ le lo g = true ∧ le g hi = true) ∨
-        (lt (sub min scale) x = true ∧ lt x (add max scale) = true ∧
+        (lt (sub lo scale) x = true ∧ lt x (add hi scale) = true ∧
           ((same r lo = true ∧ lt g lo = true) ∨ (same r hi = true ∧ lt hi g = true)))
       | _, _, _ => False
 
